@@ -546,7 +546,7 @@ def domain_guard(chk, prog, refs=None):
     return n
 
 
-ALL = {"UNDEFINED-NAME": lambda chk, prog, files: possibly_undefined(chk, prog, files), "SELF-PURE": lambda chk, prog, files: self_pure(chk, prog, files), "STALE-DERIVED": lambda chk, prog, files: stale_derived(chk, prog, files), "CACHE-KEY": lambda chk, prog, files: cache_key(chk, prog, files), "NO-PARAM-WRITE": lambda chk, prog, files: no_param_write(chk, prog, files), "ZERO-AS-MISSING": lambda chk, prog, files: zero_as_missing(chk, prog, files), "POSE-DIV": lambda chk, prog, files: pose_div(chk, prog, files), "UNIT-GUARD": lambda chk, prog, files: unit_guard(chk, prog, files), "PARAM-DEAD": param_dead, "SWAPPED-ARGS": swapped_args, "METHOD-TRUTH": method_truth, "VIEW-SWAP": view_swap,
+ALL = {"SIGN-CANON": lambda chk, prog, files: sign_canon(chk, prog, files), "UNDEFINED-NAME": lambda chk, prog, files: possibly_undefined(chk, prog, files), "SELF-PURE": lambda chk, prog, files: self_pure(chk, prog, files), "STALE-DERIVED": lambda chk, prog, files: stale_derived(chk, prog, files), "CACHE-KEY": lambda chk, prog, files: cache_key(chk, prog, files), "NO-PARAM-WRITE": lambda chk, prog, files: no_param_write(chk, prog, files), "ZERO-AS-MISSING": lambda chk, prog, files: zero_as_missing(chk, prog, files), "POSE-DIV": lambda chk, prog, files: pose_div(chk, prog, files), "UNIT-GUARD": lambda chk, prog, files: unit_guard(chk, prog, files), "PARAM-DEAD": param_dead, "SWAPPED-ARGS": swapped_args, "METHOD-TRUTH": method_truth, "VIEW-SWAP": view_swap,
        "MODULE-STATE": module_state, "SHADOW-REBIND": shadow_rebind, "CASE-MIXED": case_mixed, "INT-ALLOC": int_alloc}
 
 
@@ -610,6 +610,9 @@ def lint_fixture_write(vec: _np.ndarray):
     return vec
 def _lint_fixture_undefined(n):
     return n + never_bound_anywhere
+def _lint_fixture_sign(v):
+    v *= _np.sign(v[0])
+    return v
 def _lint_fixture_alloc(p):
     out = _np.zeros_like(p)
     out[0] = p[0]/3
@@ -617,7 +620,7 @@ def _lint_fixture_alloc(p):
 '''
 FIXTURE_HOST = "ahrs/common/frames.py"
 # rule -> properties that own it (None = every property, on its anchor files)
-OWNERS = {"UNDEFINED-NAME": None, "SELF-PURE": {"C01", "C02", "C07", "C09", "C10", "C11", "C12", "C18", "C20"}, "STALE-DERIVED": None, "CACHE-KEY": None, "NO-PARAM-WRITE": {"C01", "C02", "C03", "C04", "C06", "C07", "C09", "C10", "C12", "C13", "C18", "C20"}, "ZERO-AS-MISSING": None, "POSE-DIV": {"C03", "C04", "C05", "C13", "C02", "C07"}, "UNIT-GUARD": None, "PARAM-DEAD": None, "SWAPPED-ARGS": None, "METHOD-TRUTH": None, "VIEW-SWAP": None, "INT-ALLOC": None, "CASE-MIXED": None,
+OWNERS = {"SIGN-CANON": None, "UNDEFINED-NAME": None, "SELF-PURE": {"C01", "C02", "C07", "C09", "C10", "C11", "C12", "C18", "C20"}, "STALE-DERIVED": None, "CACHE-KEY": None, "NO-PARAM-WRITE": {"C01", "C02", "C03", "C04", "C06", "C07", "C09", "C10", "C12", "C13", "C18", "C20"}, "ZERO-AS-MISSING": None, "POSE-DIV": {"C03", "C04", "C05", "C13", "C02", "C07"}, "UNIT-GUARD": None, "PARAM-DEAD": None, "SWAPPED-ARGS": None, "METHOD-TRUTH": None, "VIEW-SWAP": None, "INT-ALLOC": None, "CASE-MIXED": None,
           "SHADOW-REBIND": None,
           # process-wide hidden state only contradicts properties that promise repeatability / isolation / history independence
           "MODULE-STATE": {"C06", "C15", "C19"}}
@@ -1240,4 +1243,40 @@ def possibly_undefined(chk, prog, files):
                 chk.finding("UNDEFINED-NAME", rel, f.qname, "`%s` is bound nowhere" % x.id,
                             "`%s` is read but no statement of the function (nor the module) binds it: NameError whenever this line runs" % x.id, line=x.lineno)
     chk.counts["UNDEFINED-NAME.functions"] = chk.counts.get("UNDEFINED-NAME.functions", 0) + n
+    return n
+
+
+# ------------------------------------------------------------------------------------------------------------ SIGN-CANON
+def sign_canon(chk, prog, files):
+    """`v * np.sign(v[k])` / `v *= np.sign(v[k])`: a vector multiplied by the sign of one of its own components, to pick the representative with a positive
+    component.  np.sign(0) is 0, so a valid non-zero vector whose k-th component is exactly 0 (a half-turn quaternion, an axis-aligned pose) becomes the zero
+    vector.  (Signs of *other* quantities times a magnitude -- 0.5*sign(d)*sqrt(.) -- are a different idiom and are not reported.)"""
+    n = 0
+
+    def sign_args(node):
+        for x in ast.walk(node):
+            if isinstance(x, ast.Call) and ast.unparse(x.func).split(".")[-1] == "sign" and x.args:
+                yield x, x.args[0]
+
+    def base_of(e):
+        while isinstance(e, (ast.Subscript,)):
+            e = e.value
+        return ast.unparse(e) if isinstance(e, (ast.Name, ast.Attribute)) else None
+    for f in _funcs(prog, files):
+        for s in ast.walk(f.node):
+            pairs = []
+            if isinstance(s, ast.AugAssign) and isinstance(s.op, ast.Mult):
+                for call, arg in sign_args(s.value):
+                    pairs.append((call, arg, ast.unparse(s.target) if isinstance(s.target, (ast.Name, ast.Attribute)) else base_of(s.target)))
+            elif isinstance(s, ast.BinOp) and isinstance(s.op, ast.Mult):
+                for side, other in ((s.left, s.right), (s.right, s.left)):
+                    if isinstance(side, ast.Call) and ast.unparse(side.func).split(".")[-1] == "sign" and side.args and isinstance(other, (ast.Name, ast.Attribute)):
+                        pairs.append((side, side.args[0], ast.unparse(other)))
+            for call, arg, other in pairs:
+                n += 1
+                if other is not None and isinstance(arg, ast.Subscript) and base_of(arg) == other:
+                    chk.finding("SIGN-CANON", f.module.rel, f.qname, "%s scaled by %s" % (other, ast.unparse(call)),
+                                "`%s` is multiplied by the sign of its own component `%s`: when that component is exactly 0 (a valid value: half-turns, axis-aligned poses) "
+                                "np.sign gives 0 and the whole vector is annihilated" % (other, ast.unparse(arg)), line=call.lineno)
+    chk.counts["SIGN-CANON.products"] = chk.counts.get("SIGN-CANON.products", 0) + n
     return n
